@@ -34,11 +34,13 @@ CONSTANTS
   StatsOf,      \* [<<recipe id, policy>> -> set of operators the recipe selects under the policy in force WHEN IT IS USED]
   WritesStats,  \* [<<recipe id, policy>> -> BOOLEAN]: quantising aliases/overwrites statistics (same-scale / fixed-range ops selected)
   Datasets,     \* dataset ids
+  Names,        \* model names QuantizationResult.save() may be called with (one folder)
   MaxLen,       \* history length
   MaxCals,      \* bound on calibration results alive
   Fixes         \* "qsvcopy": quantize() works on a copy of the calibration result (F3 repaired)
 
 NoRecipe == "none"
+MaxRes == 2      \* results the caller keeps (the first ones)
 VARIABLES
   policy,     \* the policy registered for min/max quantisation (global)
   rec,        \* [1..NQ -> recipe id or NoRecipe]
@@ -46,12 +48,15 @@ VARIABLES
   cals,       \* heap: seq of [val, writes]: val = value term of the result, writes = set of recipes that wrote into it
   snap,       \* ghost: seq of value terms at return time
   outs,       \* ghost: set of <<recipe, value term of the calibration result as SEEN by this call, value at return time>>
+  ress,       \* heap: seq of the QuantizationResult objects returned by quantize() (caller-owned, frozen): [rec, pol, cal]
+  fs,         \* the save folder: [Names -> 0 | index of the result whose model AND recipe the two files <name>.tflite /
+              \*   <name>_recipe.json hold] (save() refuses to overwrite an existing model file)
   scar,       \* [1..NQ -> outcome of the most recent call on that Quantizer that RAISED, or "none"]: a failed call changes nothing
               \*   else in this specification; keeping it in the state (and the VIEW) makes TLC explore - and the replay execute -
               \*   every continuation AFTER a failed call as well, so "a call that raises leaves the object as it was" is checked
   hist, last  \* hist: one entry per call, ending with the outcome predicted for that call
-vars == <<policy, rec, quantized, cals, snap, outs, scar, hist, last>>
-View == <<policy, rec, quantized, cals, outs, scar>>
+vars == <<policy, rec, quantized, cals, snap, outs, ress, fs, scar, hist, last>>
+View == <<policy, rec, quantized, cals, outs, ress, fs, scar>>
 Raised(o) == o \notin {"ok", "empty"}
 Scar(q, kind) == scar' = IF Raised(last') THEN [scar EXCEPT ![q] = last'] ELSE scar
 
@@ -67,14 +72,14 @@ Pristine(k) == IF k = NoCal THEN << <<"nocal">>, {} >> ELSE <<snap[k], {}>>
 Load(q, r) ==
   /\ rec' = [rec EXCEPT ![q] = LoadOutcome[<<r, policy>>][2]]
   /\ last' = (IF LoadOutcome[<<r, policy>>][1] = "ok" THEN "ok" ELSE "raise:refused")
-  /\ UNCHANGED <<policy, quantized, cals, snap, outs>>
+  /\ UNCHANGED <<policy, quantized, cals, snap, outs, ress, fs>>
   /\ Scar(q, "load")
   /\ hist' = Append(hist, <<"load", q, r, last'>>)
 
 \* Quantizer.load_config_policy: replaces the policy for every Quantizer of the process
 LoadPolicy(q, p) ==
   /\ policy' = p /\ last' = "ok"
-  /\ UNCHANGED <<rec, quantized, cals, snap, outs, scar>>
+  /\ UNCHANGED <<rec, quantized, cals, snap, outs, ress, fs, scar>>
   /\ hist' = Append(hist, <<"policy", q, p, last'>>)
 
 \* calibrate(data d, previous_calibration_result = cals[prev]) on quantizer q
@@ -88,38 +93,49 @@ Calibrate(q, d, prev) ==
              /\ cals' = Append(cals, [val |-> v, writes |-> {}])
              /\ snap' = Append(snap, v)
           /\ last' = "ok"
-  /\ UNCHANGED <<policy, rec, quantized, outs, scar>>
+  /\ UNCHANGED <<policy, rec, quantized, outs, ress, fs, scar>>
   /\ hist' = Append(hist, <<"calibrate", q, d, prev, last'>>)
 
 Quantize(q, k) ==
   /\ k \in 0..Len(cals)
-  /\ IF rec[q] = NoRecipe THEN last' = "raise:norecipe" /\ UNCHANGED <<quantized, cals, outs>>
-     ELSE IF NeedsCal[rec[q]] /\ k = NoCal THEN last' = "raise:nocal" /\ UNCHANGED <<quantized, cals, outs>>
+  /\ IF rec[q] = NoRecipe THEN last' = "raise:norecipe" /\ UNCHANGED <<quantized, cals, outs, ress>>
+     ELSE IF NeedsCal[rec[q]] /\ k = NoCal THEN last' = "raise:nocal" /\ UNCHANGED <<quantized, cals, outs, ress>>
      ELSE IF NeedsCal[rec[q]] /\ ~(StatsOf[<<rec[q], policy>>] \subseteq Covered(cals[k].val))
-          THEN last' = "raise:missing" /\ UNCHANGED <<quantized, cals, outs>>     \* statistics of another recipe: rejected
+          THEN last' = "raise:missing" /\ UNCHANGED <<quantized, cals, outs, ress>>     \* statistics of another recipe: rejected
      ELSE /\ outs' = outs \cup {<<rec[q], policy, Seen(k), Pristine(k)>>}
+          /\ ress' = IF Len(ress) < MaxRes THEN Append(ress, [rec |-> rec[q], pol |-> policy, cal |-> k]) ELSE ress   \* later results are dropped by the caller
           /\ quantized' = [quantized EXCEPT ![q] = TRUE]
           /\ cals' = IF k # NoCal /\ "qsvcopy" \notin Fixes /\ WritesStats[<<rec[q], policy>>]
                      THEN [cals EXCEPT ![k].writes = @ \cup {rec[q]}] ELSE cals
           /\ last' = "ok"
-  /\ UNCHANGED <<policy, rec, snap>>
+  /\ UNCHANGED <<policy, rec, snap, fs>>
   /\ Scar(q, "quantize")
   /\ hist' = Append(hist, <<"quantize", q, k, last'>>)
 
 Validate(q) ==
   /\ last' = IF quantized[q] THEN "ok" ELSE "raise:noresult"
-  /\ UNCHANGED <<policy, rec, quantized, cals, snap, outs>>
+  /\ UNCHANGED <<policy, rec, quantized, cals, snap, outs, ress, fs>>
   /\ Scar(q, "validate")
   /\ hist' = Append(hist, <<"validate", q, last'>>)
 
+\* result.save(folder, n) on the r-th result returned so far (q = the Quantizer that is idle meanwhile; results are
+\* caller-owned objects and remember the recipe that was in force when quantize() made them)
+Save(q, r, n) ==
+  /\ r \in 1..Len(ress)
+  /\ IF fs[n] # 0 THEN last' = "raise:exists" /\ UNCHANGED fs
+     ELSE last' = "ok" /\ fs' = [fs EXCEPT ![n] = r]
+  /\ UNCHANGED <<policy, rec, quantized, cals, snap, outs, ress, scar>>
+  /\ hist' = Append(hist, <<"save", q, r, n, last'>>)
+
 Init == /\ policy = "P0" /\ rec = [q \in Qs |-> NoRecipe] /\ quantized = [q \in Qs |-> FALSE]
-        /\ cals = <<>> /\ snap = <<>> /\ outs = {} /\ scar = [q \in Qs |-> "none"] /\ hist = <<>> /\ last = "init"
+        /\ cals = <<>> /\ snap = <<>> /\ outs = {} /\ scar = [q \in Qs |-> "none"] /\ ress = <<>> /\ fs = [n \in Names |-> 0] /\ hist = <<>> /\ last = "init"
 Next == /\ Len(hist) < MaxLen
         /\ \E q \in Qs : \/ \E r \in Recipes : Load(q, r)
                          \/ \E p \in Policies : (p # policy /\ LoadPolicy(q, p))
                          \/ \E d \in Datasets, prev \in 0..MaxCals : Calibrate(q, d, prev)
                          \/ \E k \in 0..MaxCals : Quantize(q, k)
                          \/ Validate(q)
+                         \/ (q = 1 /\ \E r \in 1..MaxRes, n \in Names : Save(q, r, n))
 Spec == Init /\ [][Next]_vars
 
 \* ------------------------------------------------------------------ C14
@@ -128,6 +144,9 @@ ArgsUntouched == \A k \in 1..Len(cals) : cals[k].val = snap[k] /\ cals[k].writes
 \* every quantize() call saw the pristine value of its calibration result: the output is a function of
 \* (model, recipe, calibration result) and not of the calls made before
 OutputIsFunction == \A o \in outs : o[3] = o[4]
+
+\* a saved pair is the model and the recipe of ONE result, and results keep the recipe / policy they were made under
+SavedPairOfOneResult == \A n \in Names : fs[n] # 0 => fs[n] \in 1..Len(ress)
 
 EmitH == PrintT(<<"HIST", ToJson([hist |-> hist, last |-> last])>>)
 =============================================================================
